@@ -1110,6 +1110,18 @@ func (e *Engine) unrollable(fr *frame, h *ssa.BasicBlock, body map[*ssa.BasicBlo
 					}
 				}
 				if el != nil {
+					// a short list of values of different types written out here (`for _, v := range []any{p.Side, p.Price}`)
+					if _, isIface := el.Underlying().(*types.Interface); isIface {
+						if sl, isSl := ia.X.(*ssa.Slice); isSl && !body[sl.Block()] {
+							if al, isAl := sl.X.(*ssa.Alloc); isAl && !body[al.Block()] {
+								if pt, isP := al.Type().Underlying().(*types.Pointer); isP {
+									if arr, isArr := pt.Elem().Underlying().(*types.Array); isArr && arr.Len() <= 16 {
+										return true
+									}
+								}
+							}
+						}
+					}
 					switch el.Underlying().(type) {
 					case *types.Struct, *types.Pointer, *types.Signature:
 						if def, isInstr := ia.X.(ssa.Instruction); !isInstr || !body[def.Block()] {
